@@ -1212,38 +1212,53 @@ impl DhtNetworkManager {
         );
 
         let mut seen_peer_ids: HashSet<String> = HashSet::new();
+        let mut seen_dht_keys: HashSet<Key> = HashSet::new();
         let mut all_nodes: Vec<DHTNode> = Vec::new();
 
         // 1. Check local routing table
-        {
+        let routing_nodes = {
             let dht_guard = self.dht.read().await;
             match dht_guard.find_nodes(&DhtKey::from_bytes(*key), count).await {
-                Ok(nodes) => {
-                    for node in nodes {
-                        let id = node.id.to_string();
-                        if self.is_local_peer_id(&id) {
-                            continue;
-                        }
-                        if seen_peer_ids.insert(id.clone()) {
-                            all_nodes.push(DHTNode {
-                                peer_id: id,
-                                address: node.address,
-                                distance: None,
-                                reliability: node.capacity.reliability_score,
-                                cached_dht_key: Some(DhtKey::from_bytes(*node.id.as_bytes())),
-                            });
-                        }
-                    }
-                }
+                Ok(nodes) => nodes,
                 Err(e) => {
                     warn!("find_nodes failed for key {}: {e}", hex::encode(key));
+                    Vec::new()
                 }
             }
-        }
+        };
 
-        // 2. Add connected peers
         {
             let peers = self.dht_peers.read().await;
+
+            // Routing-table entries are keyed by DHT key; name each peer by the
+            // transport peer ID it is reachable under (the ID every other code path
+            // uses), so that one peer never appears under two identifiers.
+            let transport_id_by_key: HashMap<Key, &PeerId> = peers
+                .iter()
+                .map(|(peer_id, info)| (info.dht_key, peer_id))
+                .collect();
+
+            for node in routing_nodes {
+                let dht_key = *node.id.as_bytes();
+                let id = match transport_id_by_key.get(&dht_key) {
+                    Some(peer_id) => (*peer_id).clone(),
+                    None => node.id.to_string(),
+                };
+                if self.is_local_peer_id(&id) || self.is_local_peer_id(&node.id.to_string()) {
+                    continue;
+                }
+                if seen_dht_keys.insert(dht_key) && seen_peer_ids.insert(id.clone()) {
+                    all_nodes.push(DHTNode {
+                        peer_id: id,
+                        address: node.address,
+                        distance: Some(dht_key.to_vec()),
+                        reliability: node.capacity.reliability_score,
+                        cached_dht_key: Some(DhtKey::from_bytes(dht_key)),
+                    });
+                }
+            }
+
+            // 2. Add connected peers
             for (peer_id, peer_info) in peers.iter() {
                 if !peer_info.is_connected {
                     continue;
@@ -1251,13 +1266,15 @@ impl DhtNetworkManager {
                 if self.is_local_peer_id(peer_id) {
                     continue;
                 }
-                if !seen_peer_ids.insert(peer_id.clone()) {
+                if seen_dht_keys.contains(&peer_info.dht_key) || seen_peer_ids.contains(peer_id) {
                     continue;
                 }
                 let address = match peer_info.addresses.first() {
                     Some(a) => a.to_string(),
                     None => continue,
                 };
+                seen_dht_keys.insert(peer_info.dht_key);
+                seen_peer_ids.insert(peer_id.clone());
                 all_nodes.push(DHTNode {
                     peer_id: peer_id.clone(),
                     address,
